@@ -19,6 +19,7 @@ func init() {
 		Assumptions: []string{"fmutils.Filter(msg, paths) keeps exactly the listed paths of msg; proto.Clone is a deep copy"},
 		Run:         runC06,
 		Controls: []Control{
+			{Name: "sanitiser-appends-the-raw-path", File: "pkg/masks/get.go", Old: "\t\tif path = traversablePrefix(md, path); path != \"\" {", New: "\t\tif prefix := traversablePrefix(md, path); prefix != \"\" {", Expect: "R06.15"},
 			{Name: "emptiness-tested-on-the-raw-mask", File: "pkg/masks/get.go", Old: "\tclone := proto.Clone(msg)\n\tpaths := filterPaths(msg, r.fields.GetPaths())\n\tif len(paths) == 0 {", New: "\tclone := proto.Clone(msg)\n\tpaths := filterPaths(msg, r.fields.GetPaths())\n\tif len(r.fields.GetPaths()) == 0 {", Expect: "R06.13"},
 			{Name: "walker-descends-into-the-containing-message", File: "pkg/masks/get.go", Old: "\t\tmd = fd.Message()\n", New: "\t\tmd = fd.ContainingMessage()\n", Expect: "R06.14"},
 			{Name: "revert-F69-empty-segment-handed-back", File: "pkg/masks/get.go", Old: "\t\tif name == \"\" {\n", New: "\t\tif false {\n", Expect: "R06.14"},
@@ -62,6 +63,8 @@ func runC06(c *an.Ctx) {
 	c.Min("R06.8", 3)
 	r1418(c, "R06.12") // a mask written for an aggregate is applied to the aggregate, not to the items it is assembled from (shared with R14.18)
 	c.Min("R06.12", 2)
+	r0615(c, "R06.15")
+	c.Min("R06.15", 1)
 	r0613(c, "R06.13")
 	c.Min("R06.13", 1)
 	r0614(c, "R06.14")
@@ -1207,4 +1210,41 @@ func r0614(c *an.Ctx, rule string) {
 	}
 	c.Check(okEmpty, rule, name+"|an empty segment ends the walk", fn.Pos(), "name == \"\" returns without the rest of the path",
 		"a path with an empty inner segment (\"a..b.c\") is handed back whole: fmutils skips the empty segment and continues below a with b.c, past the sanitiser's checks - a path through a repeated scalar or map there makes the read panic")
+}
+
+// r0615: what the sanitiser checked is what it passes on. filterPaths cuts each path with traversablePrefix and
+// appends THE CUT PATH; testing the cut path and appending the raw one keeps the check and throws its result away:
+// a path continuing below a map or repeated scalar reaches fmutils uncut and the read panics.
+func r0615(c *an.Ctx, rule string) {
+	fn := c.Prog.Func("pkg/masks", "", "filterPaths")
+	if fn == nil {
+		c.Unk(rule, "pkg/masks.filterPaths|passes on the cut path", 0, "the read-side path sanitiser was not found")
+		return
+	}
+	name := an.FuncName(fn)
+	c.SawFunc(name)
+	n, ok := 0, true
+	an.Instrs(fn, func(in ssa.Instruction) {
+		call, isCall := in.(*ssa.Call)
+		if !isCall || an.CalleeName(call) != "builtin append" || len(call.Call.Args) != 2 {
+			return
+		}
+		for _, e := range variadicElems(call.Call.Args[1]) {
+			if !strings.HasSuffix(e.Type().String(), "string") {
+				continue
+			}
+			n++
+			cut := false
+			for _, s := range append(append([]ssa.Value{e}, an.SourcesOpaque(e)...), an.Sources(e)...) {
+				if cl, isC := s.(*ssa.Call); isC && strings.HasSuffix(an.CalleeName(cl), "pkg/masks.traversablePrefix") {
+					cut = true
+				}
+			}
+			if !cut {
+				ok = false
+			}
+		}
+	})
+	c.Check(ok && n > 0, rule, name+"|passes on the cut path", fn.Pos(), fmt.Sprintf("%d appended path(s), each the result of traversablePrefix", n),
+		"the path appended to the sanitised mask is not the result of traversablePrefix (the raw path is appended after the cut one was tested): a path continuing below a map or repeated scalar reaches fmutils and the read panics")
 }
